@@ -20,6 +20,7 @@ package didnuts
 
 import (
 	"crypto"
+	"crypto/ecdsa"
 	"encoding/base64"
 	"encoding/json"
 	"errors"
@@ -126,6 +127,15 @@ func (v verificationMethodValidator) verifyThumbprint(method *did.VerificationMe
 	}
 	if keyAsJWK == nil {
 		return errors.New("missing publicKeyJwk")
+	}
+	// The JWK is only parsed, not validated: make sure it is a usable public key before deriving a thumbprint from it
+	// (the JWK library panics on EC coordinates that do not fit the curve).
+	var publicKey crypto.PublicKey
+	if err = keyAsJWK.Raw(&publicKey); err != nil {
+		return fmt.Errorf("invalid publicKeyJwk: %w", err)
+	}
+	if ecKey, ok := publicKey.(*ecdsa.PublicKey); ok && !ecKey.Curve.IsOnCurve(ecKey.X, ecKey.Y) {
+		return errors.New("invalid publicKeyJwk: point is not on the curve")
 	}
 	// Calculate the key ID from the key material. Do not use jwk.AssignKeyID(): it keeps a 'kid' that is already present
 	// in the JWK, which would allow the publisher to choose the ID.
